@@ -17,7 +17,10 @@ PID = "C18"
 OPEN = "([{"
 CLOSE = ")]}"
 PAIR = {")": "(", "]": "[", "}": "{"}
-NONTOKENS = ["@", "`", "\\", "/*", "//", "'", '"', "\n#define X\n", "\n#include <a.h>\n", "\n#if 0\n"]
+NONTOKENS = ["@", "`", "\\", "/*", "//", "'", '"', "\n#define X\n", "\n#include <a.h>\n", "\n#if 0\n",
+             # directives whose name merely begins like a supported one
+             "\n#pragmatic x\n", "\n#pragma_once\n", "\n#pragma2\n", "\n# pragmas ]] ((\n",
+             "\n#linex 3\n", "\n#line_ 3 \"f\"\n", "\n#lines\n", "\n#elif 1\n", "\n#endif\n", "\n#error x\n"]
 
 
 def bracket_problem(text):
